@@ -113,7 +113,8 @@ class StepRecorder:
         out = {"man": True, "cot": True}
         if hasattr(self.system, "constr") and state is not None and getattr(state, "pos", None) is not None:
             c = m._c(np.asarray(state.pos))
-            out["man"] = bool(np.all(np.isfinite(c)) and np.max(np.abs(c)) < 1e-7)
+            # the projection solvers return only when max|c| < constraint_tol (default 1e-9): the same criterion here
+            out["man"] = bool(np.all(np.isfinite(c)) and np.max(np.abs(c)) < 1e-9)
             if state.mom is not None:
                 j = m._jac(np.asarray(state.pos))
                 v = j @ (self.system.metric.inv @ np.asarray(state.mom))
@@ -257,6 +258,12 @@ def scenario_list(tier):
                                    integ="constrained", solver=solver, N=N, free=[], h1first=True, curved=curved))
         sc.append(dict(kind=kind, metric="diag", integ="constrained", solver="newton", N=1, free=[], h1first=True,
                        curved=True, n=2))
+    # very small steps: the unconstrained flow leaves the manifold by less than a loose tolerance, the projection still
+    # has to bring the residual below the SOLVER's tolerance (the flags judge |c| against 1e-9, the solvers' default)
+    for kind in ("Constrained", "GaussianConstrained"):
+        for st_ in (1e-4, 3e-4, 1e-3):
+            sc.append(dict(kind=kind, metric="dense" if kind != "GaussianConstrained" else "diag", integ="constrained", solver="newton",
+                           N=2, free=[], h1first=True, curved=True, step=st_))
     # a step that must fail loudly: far too large step for the constrained / implicit integrators
     sc.append(dict(kind="Constrained", metric="dense", integ="constrained", solver="newton", N=1, free=[], h1first=True,
                    curved=True, step=5.0, expect_fail=True))
@@ -521,6 +528,71 @@ INVARIANT Consistent
 CHECK_DEADLOCK FALSE
 """
 INVS = ["FollowsProgram", "TimeBudget", "ReverseChecked", "StaysOnManifold", "RoundTrip", "ReverseReturns", "InputUntouched", "Consistent"]
+
+
+def reverse_solve_faults(tier):
+    """The implicit sub-steps guarantee reversibility by solving the sub-step backwards from its result and comparing
+    with where it started.  Script the backward solves (fixed_point_solver is a public argument): the j-th backward
+    solve of a step returns a point that is NOT the starting point (a different root); a step that returns a state
+    although the comparison must have failed did not check what it claims to check.  Returns (violations, runs)."""
+    import inspect
+
+    import mici.integrators as I
+    import mici.solvers as S
+    from mici.errors import IntegratorError
+    from mici.states import ChainState
+
+    viol, runs = [], 0
+    for integ_name, cls in (("implicit_leapfrog", I.ImplicitLeapfrogIntegrator), ("implicit_midpoint", I.ImplicitMidpointIntegrator)):
+        for flavour in ("diag", "softabs") if tier != "quick" else ("diag",):
+            for direction in (1, -1):
+                model = zoo.Model(3)
+                try:
+                    system = zoo.make_system("Riemannian", model, flavour=flavour)
+                except Exception:  # noqa: BLE001
+                    continue
+                pos = np.array([0.2, -0.1, 0.15])
+                st0 = ChainState(pos=pos.copy(), mom=None, dir=direction)
+                mom = system.sample_momentum(st0, np.random.default_rng(3))
+
+                def run(fault_at):
+                    calls = {"back": 0, "all": 0}
+
+                    def solver(func, x0, **kw):
+                        r = S.solve_fixed_point_direct(func, x0, **kw)
+                        dt = inspect.getclosurevars(func).nonlocals.get("time_step")
+                        calls["all"] += 1
+                        if dt is not None and np.sign(dt) != np.sign(direction * 0.05):
+                            calls["back"] += 1
+                            if calls["back"] == fault_at:
+                                r = np.asarray(r) + 1e-3     # another "root": far beyond reverse_check_tol (2e-8)
+                                func(r)                      # (the closure also writes the iterate into the state)
+                        return r
+
+                    integ = cls(system, 0.05, fixed_point_solver=solver)
+                    state = ChainState(pos=pos.copy(), mom=mom.copy(), dir=direction)
+                    try:
+                        integ.step(state)
+                        return "returned", calls
+                    except IntegratorError as e:
+                        return type(e).__name__, calls
+                    except Exception as e:  # noqa: BLE001
+                        return "foreign:" + type(e).__name__, calls
+
+                outcome, calls = run(0)
+                nback = calls["back"]
+                if outcome != "returned" or nback == 0:
+                    continue
+                for j in range(1, nback + 1):
+                    runs += 1
+                    outcome, _ = run(j)
+                    if outcome == "returned":
+                        viol.append(("C02", f"C02:{integ_name}:reverse-check-accepts-different-root:backward-solve-{j}",
+                                     f"{integ_name} on a Riemannian ({flavour}) system, direction {direction}: the backward solve #{j} of the "
+                                     f"step (of {nback}) was made to return a point 1e-3 away from where the sub-step started, yet the step "
+                                     f"returned a state instead of raising NonReversibleStepError",
+                                     {"engine": "integrators-revfault", "integ": integ_name, "flavour": flavour, "direction": direction, "j": j}))
+    return viol, runs
 
 
 def validate(traces, name):
